@@ -639,7 +639,7 @@ func c13Variants(sid string, seq []c13Ev, methods []string, rng *rand.Rand, all 
 			v = append(v, c13Ev{Op: "tick", D: 70}, c13Ev{Op: "sweep"})
 			out = append(out, v)
 			// (d) the publish fails (with the request context cancelled or not) and the caller retries AT ONCE, no sweep in between
-			if f.f == "fail" || f.f == "failctx" {
+			if f.f == "failctx" || (f.f == "fail" && !all) {
 				v := append([]c13Ev{cfg(fmt.Sprintf("now:%d", j))}, pre...)
 				v = append(v, bad, retry)
 				v = append(v, rest...)
@@ -760,7 +760,7 @@ func TestVerifC13(t *testing.T) {
 	go func() {
 		for {
 			time.Sleep(200 * time.Millisecond)
-			if ev := curEv; ev != nil && time.Since(curStart) > 20*time.Second {
+			if ev := curEv; ev != nil && time.Since(curStart) > 90*time.Second {
 				b, _ := json.Marshal(*ev)
 				ops.Write(b)
 				ops.WriteString("\n")
@@ -834,7 +834,8 @@ func TestVerifC13(t *testing.T) {
 	}
 	for i, seq := range fixed {
 		for c, m := range c13Configs {
-			for _, v := range c13Variants(fmt.Sprintf("f%d.%d", i, c), seq, m, rng, true) {
+			// every cut with both methods; on the single-method nodes every cut of the create, a third of the cuts of the longer ones (quick)
+			for _, v := range c13Variants(fmt.Sprintf("f%d.%d", i, c), seq, m, rng, thorough || c == 0 || i == 0) {
 				exec(v)
 			}
 		}
